@@ -7,8 +7,8 @@ import (
 	"github.com/drand/drand/v2/protobuf/drand"
 )
 
-// VerifProxy exposes the two proxy types PublicRandStream wraps its arguments in before it calls
+// VerifStreamProxy exposes the two proxy types PublicRandStream wraps its arguments in before it calls
 // beacon.SyncChain, so the harness can drive the public-stream path with a scripted server stream.
-func VerifProxy(req *drand.PublicRandRequest, stream drand.Public_PublicRandStreamServer) (beacon.SyncRequest, beacon.SyncStream) {
+func VerifStreamProxy(req *drand.PublicRandRequest, stream drand.Public_PublicRandStreamServer) (beacon.SyncRequest, beacon.SyncStream) {
 	return &proxyRequest{req}, &proxyStream{stream}
 }
